@@ -127,6 +127,13 @@ class C19:
         for k in (1, 2):
             for seq in itertools.product(range(n), repeat=k):
                 yield [list(seq), '*', 'repl']
+        # package items (loading, requirements) in all orders, without any package preloaded
+        pk = [i for i, it in enumerate(ITEMS) if 'usepackage' in it[0] or it[1] and it[1][0][1] in PKG_DECL]
+        for seq in itertools.product(pk, repeat=3):
+            yield [list(seq), '']
+        for seq in itertools.product(pk, repeat=4):
+            if len(set(seq)) == 4:
+                yield [list(seq), '']
 
     def judge(self, case):
         seq, pack = case[:2]
